@@ -3,7 +3,7 @@ From Coq Require Import Reals List Bool ZArith Lra Lia.
 From PyrexLib Require Import RealPrims.
 From PyrexGen Require Import Gen_askaryan.
 From PyrexModel Require Import AskaryanIndex AskaryanModel.
-From PyrexProofs Require Import C07_index C07_lists C07_formulas C07_finite C07_zhs_avz C07_arz.
+From PyrexProofs Require Import C07_index C07_lists C07_formulas C07_finite C07_zhs_avz C07_arz C07_zhs_peak C07_arz_shift.
 Import ListNotations.
 Open Scope R_scope.
 
@@ -80,3 +80,12 @@ Definition C07_zhs_avz_whole_sample_shift_partial_merged := conj C07_zhs_whole_s
 Definition C07_arz_placement_merged := conj C07_arz_placement_index_all C07_arz_placement_all.
 Definition C07_cone_factor_monotone_merged := conj C07_zhs_cone_factor_monotone_all C07_avz_cone_factor_monotone_all.
 Definition C07_finiteness_merged := conj C07_finiteness_all C07_nonvacuous_all.
+
+(* ---- third level: sharpened hypotheses and the ZHS time-domain peak ---- *)
+Definition C07_zhs_avz_shift_full := conj (proj1 C07_zhs_avz_whole_sample_shift_partial_merged) (conj (proj2 C07_zhs_avz_whole_sample_shift_partial_merged) (conj zhs_zeroed_iff (conj zhs_sample_periodic zhs_whole_sample_shift_all))).
+Definition C07_arz_shift_full := conj (proj1 C07_arz_whole_sample_shift_partial_all) (conj (proj2 C07_arz_whole_sample_shift_partial_all) (conj Rtrunc_minus_iff (conj ss_n_shift_consistent shower_signal_whole_sample_shift_concrete))).
+Definition C07_cone_full := conj (proj1 C07_cone_factor_monotone_merged) (conj (proj2 C07_cone_factor_monotone_merged) (conj zhs_peak_attained (conj zhs_peak_strict_in_angle zhs_time_domain_peak_largest_on_cone))).
+
+(* ---- top-level groupings (each Print Assumptions in Props costs > 1 s) ---- *)
+Definition C07_scaling_invariances_top := (conj C07_inv_distance_all (conj C07_even_in_angle_all C07_joint_shift_all)).
+Definition C07_zero_energy_and_finiteness_top := (conj C07_zero_energy_all C07_finiteness_merged).
